@@ -49,6 +49,8 @@ def run(chk, facts, tier):
     chk.rule('reply-framing', 'the reply header carries handler.out_size and the received channel_id, is committed with out_size + header and only when handled && out_size; handler output window starts after the header', floor=1)
     chk.rule('response-needs-matching-identifier', 'signaling_channel::l2cap_input completes the pending request only for code 0x13 while transmitted and input[1] == identifier_ (with in_size covering it)', floor=1)
     chk.rule('reply-size-defined', 'signaling_channel::l2cap_input and reject_command assign the reply size (in/out parameter, buffer capacity on entry) on every path to their exit, directly or by handing it to reject_command', floor=2)
+    chk.rule('output-window', 'transmit_single_pending_l2cap_output offers the channels the allocated buffer behind the 4 byte L2CAP header and exactly the room that is left there (buffer + H, size - H with one H), '
+             'and commits out_size + H', floor=1)
     chk.rule('request-sent-once', 'l2cap_output emits the request only in state queued and stores transmitted on that path; output[1] = identifier_', floor=1)
     chk.rule('identifier-nonzero', 'identifier_ starts non-zero, is advanced only on completion and skips invalid_identifier', floor=2)
     chk.rule('reject-echo', 'reject_command answers only for in_size >= 2 and a non-zero identifier, echoing input[1]', floor=1)
@@ -131,6 +133,19 @@ def run(chk, facts, tier):
             ok = bool(defs) and not fn.paths_avoiding([fn.entry], fn.exit, defs)
             chk.instance('reply-size-defined', fn, '%s: %s written on every path (%d writing blocks)' % (name, o, len(defs)), ok,
                          '' if ok else 'there is a path through %s that returns without setting %s: the caller takes the capacity of the output buffer as the size of a reply and sends a frame nobody wrote' % (name, o), key=name)
+    for fn in variants(facts, L2 + 'transmit_single_pending_l2cap_output', chk):
+        hs = fn.body.find(lambda n: n.k == 'VarDecl' and n.d.get('tn') == 'l2cap_output_handler')
+        ok, why = len(hs) == 1, 'output handler construction not found'
+        if ok:
+            init = hs[0].c[0]
+            a = [x for x in (init.c if init.k in ('ParenListExpr', 'InitListExpr') else init.args())]
+            ok = len(a) == 4
+            if ok:
+                ea = elem_addr(a[1])
+                sz = as_binop(a[2])
+                ok = ea is not None and strip_casts(ea[0]).n == 'second' and sz is not None and sz[0] == '-' and strip_casts(sz[1]).n == 'first' and same_expr(ea[1], sz[2]) and strip_casts(sz[2]).n == 'l2cap_layer_header_size'
+                why = 'the channels are offered (%s, %s): the room is not the allocated size minus the header the window starts behind - a channel that fills its room writes behind the link layer buffer' % (a[1].text()[:40], a[2].text()[:40])
+        chk.instance('output-window', fn, 'handler( this, output.second + H, output.first - H, connection )', ok, '' if ok else why, key='window')
     for fn in variants(facts, SC + 'signaling_channel', chk):
         init = [i for n, i in fn.inits if n == 'identifier_']
         v = cval(init[0].c[0]) if init and init[0].c else (cval(init[0]) if init else None)
